@@ -137,3 +137,28 @@ Lemma kq_bicg_panics :
   is_divzero (@solve_bicg SAQ (@sp_mul AQ kq_s) (@sp_tmul AQ kq_s) 2 2 1 [q 2 1; q (-2) 1] [q 0 1; q 0 1] 140 (q 1 1000)) = true /\
   is_divzero (@solve_bicg SAQ (@sp_mul AQ kq_s) (@sp_tmul AQ kq_s) 2 2 2 [q 2 1; q (-2) 1] [q 0 1; q 0 1] 140 (q 1 1000)) = true.
 Proof. split; vm_compute; reflexivity. Qed.
+
+(* ---- the QMR breakdown witness over R: [[2,-1],[0,1]], b = (2,-2), x0 = 0 ---- *)
+Local Open Scope R_scope.
+Definition kr_s : sparse AR := @mkS AR 2%nat 2%nat 3%nat [2; -1; 1] [0; 0; 1]%nat [0; 1; 3]%nat.
+Lemma kr_s_wf : wfS kr_s.
+Proof.
+  unfold wfS, kr_s; cbn [sp_rows sp_cols sp_nonzero sp_val sp_row_index sp_col_start length nth Nat.add].
+  repeat split; try reflexivity.
+  - intros j Hj. do 2 (destruct j as [|j]; [cbn [nth Nat.add]; lia|]). lia.
+  - intros k Hk. do 3 (destruct k as [|k]; [cbn [nth]; lia|]). lia.
+Qed.
+Lemma kr_r0 : @zipw AR Rminus [2; -2] (@sp_apply AR kr_s [0; 0]) = [2; -2].
+Proof.
+  unfold sp_apply, dmulv, sp_entry, suml, seg. cbn.
+  apply f_equal2; [ring | apply f_equal2; [ring | reflexivity]].
+Qed.
+Lemma kr_left_eigenvector :
+  let r0 := @zipw AR Rminus [2; -2] (@sp_apply AR kr_s [0; 0]) in
+  @sp_tapply AR kr_s r0 = @vscale AR r0 2 /\ r0 <> repeat 0 (sp_rows kr_s).
+Proof.
+  cbv zeta. rewrite kr_r0. split.
+  - unfold sp_tapply, dtmulv, sp_entry, suml, seg. cbn.
+    apply f_equal2; [ring | apply f_equal2; [ring | reflexivity]].
+  - cbn. intros H. injection H as H1 H2. lra.
+Qed.
